@@ -510,6 +510,34 @@ func (st *ex6State) handler(sv *ex6Server) server6.Handler {
 	}
 }
 
+// advertiseUnusable reports whether the error of a failed exchange is the builder's refusal
+// of an ADVERTISE that really lacks what the error names. For Request() the advertise is
+// known; for RapidSolicit() it is internal, and the refusal is believed only if some
+// delivered ADVERTISE lacks the named option.
+func (st *ex6State) advertiseUnusable(o *ex6Op) bool {
+	msg := o.err.Error()
+	var code dhcpv6.OptionCode
+	switch {
+	case strings.Contains(msg, "Client ID cannot be nil in ADVERTISE"):
+		code = dhcpv6.OptionClientID
+	case strings.Contains(msg, "Server ID cannot be nil in ADVERTISE"):
+		code = dhcpv6.OptionServerID
+	case strings.Contains(msg, "IA_NA cannot be nil in ADVERTISE"):
+		code = dhcpv6.OptionIANA
+	default:
+		return false
+	}
+	if o.adv != nil {
+		return o.adv.GetOneOption(code) == nil
+	}
+	for _, r := range st.rx {
+		if r.m != nil && r.m.MessageType == dhcpv6.MessageTypeAdvertise && r.m.GetOneOption(code) == nil {
+			return true
+		}
+	}
+	return false
+}
+
 // fixIAAddr6 writes the address the scripted server means to hand out into every IA
 // address option of the IA_NAs of an encoded reply, with the harness's own TLV writer:
 // what is on the wire must not depend on how the library under test encodes an address.
@@ -732,8 +760,9 @@ func (st *ex6State) oracle(v *vio) {
 				phase = req
 			}
 			if !errors.Is(o.err, nclient6.ErrNoResponse) {
-				if len(req) == 0 && strings.Contains(o.err.Error(), "ADVERTISE") {
-					// the advertise could not be turned into a request (no client/server id, ...): the caller's input
+				if len(req) == 0 && st.advertiseUnusable(o) {
+					// the advertise could not be turned into a request because it lacks the client id,
+					// the server id or an IA_NA: the servers' doing, not the client's
 				} else {
 					v.add("Y-fail-error", "%s: failed with %v, want the no-response error (nobody cancelled anything and no socket operation failed)", name, o.err)
 				}
